@@ -20,7 +20,14 @@ def mp_score(w):
     return -float((w.numerator % 5) + (w.denominator.bit_length() % 3)) / 2
 
 
+FLOAT_REPR = "float"  # "float" | "np": representation of Float weights (set per case by rv.checks.common.loop)
+
+
 def lib_weight(R, w, idx):
+    if R == "Float" and FLOAT_REPR == "np":
+        import numpy as np
+
+        return np.float64(float(w))
     if R == "MaxPlus":
         return SR.mk(R, mp_score(w))
     if R == "Poly":
